@@ -74,6 +74,14 @@ Print Assumptions C19_evaluate_refuses.
 (* ---- the last-statement handling of evaluate(): each side effect exactly once, same bindings, documented result ----
    Stated for every plan satisfying the decidable [shape_ok]; the plan regenerated from the current execution.py
    (Gen/EvalShape.v) satisfies it (instance obligation generated_shape_ok, re-checked on every run). *)
+(* Apart from binding '__result__', evaluate() performs exactly the events of plain execution — expression evaluations,
+   statement executions, name bindings and stores through complex targets — each once and in the same order
+   (so `x[i] = i = 2` in last position stores at the old i, as Python does). *)
+Theorem C19_evaluate_events_equal_plain : forall p, prog_wf p = true ->
+  program_events (evaluate_events shape p) = plain p.
+Proof. intros p Hp. exact (events_equal_plain shape p generated_shape_ok Hp). Qed.
+Print Assumptions C19_evaluate_events_equal_plain.
+
 Theorem C19_evaluate_effects_once : forall p, prog_wf p = true ->
   effects (evaluate_events shape p) = effects (plain p).
 Proof. intros p Hp. exact (effects_equal shape p generated_shape_ok Hp). Qed.
